@@ -35,6 +35,17 @@ SplitTallyU6 ==
     <<S("propose", 2)>> \o Each("proposal", <<1, 2, 3, 4>>) \o <<S("just", 1)>> \o Each("timer", <<2, 3, 4, 5>>) \o Each("just", <<2, 3, 4, 5>>)
     \o <<S("propose", 3)>> \o Each("proposal", <<2, 3>>) \o Each("timer", <<2, 3, 4, 5>>) \o Each("just", <<2, 3, 4, 5>>)
     \o <<S("propose", 4)>> \o Each("proposal", <<2, 3, 4, 5>>) \o <<S("just", 2)>>
+(* SecondTimeoutQCU6: six equal validators, 3 Byzantine. View 1: p (block 0) is voted by 1,2,4,5 (+3): replica 1 sees the commit certificate *)
+(* and finalises p; 6 never saw the proposal. 2,4,5,6 (+3) time out: the certificate they assemble shows p with weight 3 and NO commit       *)
+(* certificate. Replica 2 fetches block 0. The Byzantine leader of view 2 sends replica 2 a proposal for block 1 justified by a SECOND        *)
+(* timeout certificate for view 1 - same votes, but 3's report now carries the commit certificate for p. A replica that skips the nested      *)
+(* commit certificate of a timeout certificate that is not newer than the one it holds (Weaken = "tqc_same_view_skips_cqc") votes for block 1 *)
+(* without recording that block 0 is final. View 2 times out: high votes p (4, 5), block 1 (2), none (6, 3) - no sub-quorum, no commit          *)
+(* certificate: view 3 proposes a fresh q for block 0, which 2,4,5,6 (+3) certify: replica 4 finalises q.                                       *)
+SecondTimeoutQCU6 ==
+    <<S("propose", 2)>> \o Each("proposal", <<1, 2, 4, 5>>) \o <<S("just", 1)>> \o Each("timer", <<2, 4, 5, 6>>) \o Each("just", <<2, 4, 5, 6>>)
+    \o <<S("sync", 2), S("proposal", 2)>> \o Each("timer", <<2, 4, 5, 6>>) \o Each("just", <<2, 4, 5, 6>>)
+    \o <<S("propose", 4)>> \o Each("proposal", <<2, 4, 5, 6>>) \o <<S("just", 4)>>
 CONSTANT Script
 
 GInit == InitView1 /\ step = 1
